@@ -171,7 +171,9 @@ POINTERS = ["", "/a", "/a/b", "/a/b/0", "/a/b/2/c", "/a/b/3", "/a/b/-1", "/a/b/0
             "/~01", "/~1", "/0", "/a%20b", "/a+b", "/%C3%A9", "/a%2Fb", "/arr/0/0", "/arr/1/0", "/arr/1", "/s/0", "/n/x", "/00", "/1e0", "/-1",
             "/missing", "/%2525", "/a/b/0/x", "/t/0", "/a/b/", "/a//b", "/a/b/\u0661",
             "/big/0", "/big/2", "/big/9", "/big/10", "/big/11", "/big/12", "/big/20", "/big/100", "/caf%C3%A9", "/cafe%CC%81", "/%E2%84%A6", "/%CE%A9",
-            "/A", "/a%20", "/a%3Fb%23c", "/q%22%5C", "/a?b#c"]
+            "/A", "/a%20", "/a%3Fb%23c", "/q%22%5C", "/a?b#c",
+            # an index token longer than the interpreter's int/str conversion limit (sys.int_max_str_digits, 4300 since Python 3.11)
+            "/big/" + "1" * 5000, "/arr/" + "9" * 4400 + "/0"]
 _MISSING = object()
 
 
@@ -186,7 +188,7 @@ def _rfc6901(document, fragment):
     for tok in ptr[1:].split("/"):
         tok = tok.replace("~1", "/").replace("~0", "~")
         if isinstance(document, list):
-            if not re.fullmatch("0|[1-9][0-9]*", tok) or int(tok) >= len(document):
+            if not re.fullmatch("0|[1-9][0-9]*", tok) or len(tok) > 18 or int(tok) >= len(document):
                 return _MISSING
             document = document[int(tok)]
         elif isinstance(document, dict):
@@ -215,7 +217,8 @@ def table_eval(prog, f):
             except PyRaise as pr:
                 got, err = _MISSING, pr.name
             if err is not None and err != "RefResolutionError":
-                bad.append(("R14.4", "unwrapped|%s" % err, "fragment %r: %s escapes instead of RefResolutionError" % (frag, err)))
+                bad.append(("R14.4", "unwrapped|%s" % err, "fragment %s: %s escapes instead of RefResolutionError" % (
+                    repr(frag) if len(frag) < 60 else repr(frag[:12]) + "... (%d characters)" % len(frag), err)))
             elif want is _MISSING and err is None:
                 clause = "R14.3" if any(ch.isdigit() for ch in frag.rsplit("/", 1)[-1]) or "/s/" in frag or "/arr/1/" in frag else "R14.4"
                 bad.append((clause, "resolves-nothing", "fragment %r designates nothing in the document, yet %r is returned" % (frag, got)))
